@@ -279,3 +279,63 @@ func VP_C03_File() {
 	vpAssert(ok, "Reader returns the records in order")
 	vpReach("end")
 }
+
+// VP_C11_SAMCorrupt: a file of three lines whose middle line is corrupted in
+// one of several ways yields exactly one error in that line's position and
+// leaves the records before and after it intact.
+func VP_C11_SAMCorrupt() {
+	kind := vpCase("kind")
+	a := vpRecord("a.", 1, 0, 1, 1)
+	c := vpRecord("c.", 1, 0, 0, 0)
+	var wa, wc vpBuf
+	a.Write(&wa)
+	c.Write(&wc)
+	good := vpRecord("b.", 1, 0, 0, 0)
+	var wb vpBuf
+	good.Write(&wb)
+	fields := bytes.Split(wb.b[:len(wb.b)-1], []byte{'\t'})
+	sym := func(name string) []byte {
+		b := vpBytes(name, 1)
+		vpAssume(b[0] != '\t' && b[0] != '\n' && b[0] != '\r')
+		return b
+	}
+	switch kind {
+	case 0: // too few fields
+		fields = fields[:10]
+	case 1: // non-digit byte in an integer field
+		d := sym("bad")
+		vpAssume(!(d[0] >= '0' && d[0] <= '9'))
+		fields[3] = append([]byte("1"), d...)
+	case 2: // tag without a second colon
+		fields = append(fields, append([]byte("XY:"), sym("bad")...))
+	case 3: // ill-typed i tag
+		d := sym("bad")
+		vpAssume(!(d[0] >= '0' && d[0] <= '9'))
+		fields = append(fields, append([]byte("XY:i:"), d...))
+	case 4: // A tag with two characters
+		fields = append(fields, append(append([]byte("XY:A:"), sym("b1")...), sym("b2")...))
+	case 5: // H tag with a non-hex digit
+		d := sym("bad")
+		vpAssume(!(d[0] >= '0' && d[0] <= '9') && !(d[0] >= 'a' && d[0] <= 'f') && !(d[0] >= 'A' && d[0] <= 'F'))
+		fields = append(fields, append([]byte("XY:H:a"), d...))
+	case 6: // unknown tag type
+		d := sym("bad")
+		vpAssume(d[0] != 'A' && d[0] != 'i' && d[0] != 'f' && d[0] != 'Z' && d[0] != 'H' && d[0] != 'B' && d[0] != ':')
+		fields = append(fields, append(append([]byte("XY:"), d...), []byte(":1")...))
+	case 7: // empty integer field
+		fields[7] = nil
+	}
+	bad := append(bytes.Join(fields, []byte{'\t'}), '\n')
+	var data []byte
+	data = append(data, wa.b...)
+	data = append(data, bad...)
+	data = append(data, wc.b...)
+	got := vpCollectH(vpOneShot(data), 6)
+	vpAssert(len(got) == 3, "one item per line")
+	if len(got) == 3 {
+		vpAssert(!got[0].err && vpSameSAM(got[0].s, a), "the record before the malformed line is intact")
+		vpAssert(got[1].err, "the malformed line yields exactly one error in its position")
+		vpAssert(!got[2].err && vpSameSAM(got[2].s, c), "the record after the malformed line is intact")
+	}
+	vpReach("end")
+}
